@@ -468,6 +468,11 @@ def plan(tier, seed):
         if lib in ("Mul", "Div"):
             simple = [k for k in simple if k != "f64"]                    # off (solver time), see below
         qk = simple[seed % len(simple)]               # the quick-tier kind of this operator rotates with the seed
+        if lib in ("Div", "Mod", "Pow"):
+            # symbolic-by-symbolic division: 16-bit operands needed 470 s per kernel harness at VERIF_SEED=1 (quick is stopped at 900 s);
+            # the quick kind of / % ^ is an 8-bit kind, the wider kinds are thorough
+            s8 = [k for k in simple if k in ("u8", "i8")] or simple[:1]
+            qk = s8[seed % len(s8)]
         for t in kinds:
             if arity == 2:
                 for (lf, rf) in FORM_PAIRS:
